@@ -111,9 +111,12 @@ def _one(args):
             for form in (("callable_param", "dict") if which == 0 or n == 1 else ("callable_plain", "dict")):
                 try:
                     if form == "dict":
-                        mf = fm.MetricFrame(metrics={"fp": fingerprint, "cnt": fm.count, "fp2": fingerprint}, y_true=yfp, y_pred=yfp,
-                                            sensitive_features=sf, control_features=cf, sample_params={"fp": {"tag": yfp}})
-                        cols = {"fp": True, "fp2": False}
+                        # three entries share ONE callable: with the id tags, without parameter, and with bit-reversed id tags
+                        # (each entry must be evaluated with its own per-sample parameter)
+                        yrev = [2 ** (n - i) for i in ids]
+                        mf = fm.MetricFrame(metrics={"fp": fingerprint, "cnt": fm.count, "fp2": fingerprint, "fp3": fingerprint}, y_true=yfp, y_pred=yfp,
+                                            sensitive_features=sf, control_features=cf, sample_params={"fp": {"tag": yfp}, "fp3": {"tag": yrev}})
+                        cols = {"fp": True, "fp2": False, "fp3": "rev"}
                     elif form == "callable_param":
                         # the per-sample parameter arrives as a Series whose labels are a permutation of 0..n-1: slicing must stay positional
                         lab = list(range(n)); rnd.shuffle(lab)
@@ -138,15 +141,19 @@ def _one(args):
                     out.append(({"api": "by_group.index", "kind": "names", **sig0}, f"index names {list(bg.index.names)} != {(cf_names or []) + sf_names}", detail))
                 if mf.sensitive_levels != sf_names or (mf.control_levels or None) != cf_names:
                     out.append(({"api": "levels", "kind": "names", **sig0}, f"levels {mf.sensitive_levels}/{mf.control_levels}", detail))
+                def unrev(dec, flag):
+                    if dec is None or flag != "rev":
+                        return dec
+                    return dec[0], sorted(n + 1 - b for b in dec[1])
                 for col, has_param in cols.items():
                     for c in case["cells"]:
-                        got = _decode(_get(bg, col, _key(case, c["key"]), True))
+                        got = unrev(_decode(_get(bg, col, _key(case, c["key"]), True)), has_param)
                         exp = None if not c["rows"] else (c["rows"], c["rows"] if has_param else [])
                         if got != exp:
                             out.append(({"api": "by_group", "kind": "rowset", "empty": not c["rows"], "param": has_param, **sig0},
                                         f"cell {_key(case, c['key'])} evaluated on rows/param-rows {got}, specification {exp}", detail))
                     for o in case["overall"]:
-                        got = _decode(_get(mf.overall, col, _key(case, o["key"]) if nc else None, nc > 0))
+                        got = unrev(_decode(_get(mf.overall, col, _key(case, o["key"]) if nc else None, nc > 0)), has_param)
                         exp = None if not o["rows"] else (o["rows"], o["rows"] if has_param else [])
                         if got != exp:
                             out.append(({"api": "overall", "kind": "rowset", "param": has_param, **sig0},
